@@ -49,10 +49,29 @@ Lemma source_max_step conf m c :
   Some (if frank m <? frank (hint_or_trace (conf c)) then hint_or_trace (conf c) else m).
 Proof. unfold interp_max_step, hint_or_trace. simpl. destruct (c_hint (conf c)); reflexivity. Qed.
 
-(** * level_filters.rs: STATIC_MAX_LEVEL of the two harness builds (the model's [static_max] parameter) *)
+(** * level_filters.rs: STATIC_MAX_LEVEL (the model's [static_max] parameter) of the four harness builds ... *)
 Lemma source_static_max :
   src_static_max [] = 5 /\ src_static_max ["max_level_info"%string] = 3 /\
-  (* release-only features do not cap a debug build; the first listed feature wins *)
+  (* release-only features do not cap a build with debug assertions; the first listed feature wins *)
   src_static_max ["release_max_level_off"%string] = 5 /\
-  src_static_max ["max_level_debug"%string; "max_level_warn"%string] = 2.
+  src_static_max ["max_level_debug"%string; "max_level_warn"%string] = 2 /\
+  (* without debug assertions *)
+  src_static_max_of true ["max_level_info"%string; "release_max_level_trace"%string] = 5 /\
+  src_static_max_of true ["max_level_debug"%string; "release_max_level_info"%string] = 3.
 Proof. repeat split; vm_compute; reflexivity. Qed.
+
+(** ... and for EVERY feature selection and both profiles: the compile-time cap is what the feature names configure —
+    `release_max_level_<n>` without debug assertions, `max_level_<n>` with them, the most restrictive selected one —
+    whenever the profile's family selects anything.  (So the compile-time shortcut never suppresses more than it was
+    configured to; in particular `release_max_level_trace` means TRACE whatever `max_level_*` features are also on.) *)
+Lemma source_static_cap_is_configured release (on : string -> bool) :
+  match configured_cap release on with
+  | Some l => static_max_of (g_static_max gen_guard) (g_static_release_falls_through gen_guard) release on = l
+  | None => True
+  end.
+Proof.
+  unfold configured_cap, static_max_of. destruct release; simpl.
+  all: repeat match goal with
+              | |- context [if ?g ?f then _ else _] => destruct (g f)
+              end; simpl; try reflexivity; try exact I.
+Qed.
